@@ -3,7 +3,7 @@
 SPECIFICATION Spec
 CONSTANTS
   TargetIds = {1, 3, 4, 7, 9, 10, 11, 12, 13, 15, 17, 19}
-  MountCfgIds = {2, 3, 5, 6, 7}
+  MountCfgIds = {2, 3, 5, 6, 8}
   SecretIds = {2, 4}
 INVARIANTS WalkRefinesExpected
 CHECK_DEADLOCK FALSE
